@@ -557,7 +557,7 @@ func runFanout(e *Env, idx int, c *fanCase) (*fanOut, error) {
 	ctx := context.Background()
 	dir := filepath.Join(e.Tmp, "fo", strconv.Itoa(idx))
 	defer os.RemoveAll(dir)
-	path, err := writeManifest(dir, s.Eco, s.Manifest)
+	path, err := writeManifest(dir, s.Eco, s.Manifest, s.Layout)
 	if err != nil {
 		return nil, err
 	}
